@@ -19,7 +19,10 @@
                              and every real-linear subspace the right-hand side preserves
   * `commutator_traceless`, `commutator_hermitian`   the right-hand side -i[HI,ρ] is traceless, and Hermitian when HI, ρ are
   * `rk4_trace`, `rk4_hermitian`   ⇒ trace and Hermiticity are preserved **exactly** for any sub-step count
-  Partial (DESIGN §7 C02): positivity/purity under RK4 hold only up to the truncation error.
+  * `rk4_purity_witness`, `rk4_not_pure`   COUNTEREXAMPLE: one RK4 step from |0><0| under a Hermitian generator gives
+                             tr ρ² = 1145/1152 (trace still 1): "a pure state stays pure" is false for linear-rk4 at any
+                             finite sub-step (`rk4V_linear_step`: the step is the degree-4 Taylor polynomial of exp(hL)).
+                             Known finding `rk4-not-unitary`; positivity/purity under RK4 hold only up to the truncation error.
   Hops do not touch ρ (`Mud.hopToIt` has no ρ argument); collapse: see `collapse_pure` below.
 -/
 import MudProof.MatBridge
@@ -318,6 +321,154 @@ theorem rk4_hermitian (eigs : Fin N → ℝ) (H0 H1 W00 W11 W01 : Tab ℝ N N) (
         unfold Matrix.IsHermitian at *
         rw [conjTranspose_smul, hA]; simp }
   exact rk4_invariant S _ (fun y t hy => commutator_hermitian _ _ (hHI t) hy) 0 dt ns _ h0
+
+/-! ### T7. `linear-rk4` is not unitary: counterexample to purity (the property is false for this integrator) -/
+
+section rk4witness
+variable {Y : Type} [AddCommGroup Y] [Module ℝ Y]
+
+/-- one RK4 step for an autonomous LINEAR right-hand side is the degree-4 Taylor polynomial of `exp(hL)` -/
+theorem rk4V_linear_step (L : Y →ₗ[ℝ] Y) (h : ℝ) (y0 : Y) :
+    rk4V (fun y _ => L y) 0 h 1 y0
+      = y0 + h • L y0 + (h ^ 2 / 2) • L (L y0) + (h ^ 3 / 6) • L (L (L y0)) + (h ^ 4 / 24) • L (L (L (L y0))) := by
+  unfold rk4V rk4 rk4One
+  simp only [List.range_one, List.foldl_cons, List.foldl_nil, map_add, map_smul, frac_real, lit_real]
+  norm_num
+  module
+
+/-- scalar case `z' = λ z` over `ℂ`: the step multiplies by `R(hλ) = 1 + hλ + (hλ)²/2 + (hλ)³/6 + (hλ)⁴/24` -/
+theorem rk4V_scalar (lam : ℂ) (h : ℝ) (z0 : ℂ) :
+    rk4V (Y := ℂ) (fun z _ => lam * z) 0 h 1 z0
+      = (1 + h * lam + (h * lam) ^ 2 / 2 + (h * lam) ^ 3 / 6 + (h * lam) ^ 4 / 24) * z0 := by
+  have := rk4V_linear_step (Y := ℂ) (LinearMap.mulLeft ℝ lam) h z0
+  simp only [LinearMap.mulLeft_apply] at this
+  rw [this]
+  simp only [Complex.real_smul]
+  push_cast
+  ring
+
+/-- the 2×2 coupling `J = [[0,1],[-1,0]]` scaled by `c` -/
+def Jtab (c : ℝ) : Tab ℝ 2 2 := Tab.ofFn (fun i j => if i.val = 0 ∧ j.val = 1 then c else if i.val = 1 ∧ j.val = 0 then -c else 0)
+
+def zeroTab : Tab ℝ 2 2 := Tab.ofFn (fun _ _ => 0)
+
+/-- the witness generator: degenerate zero Hamiltonian, constant derivative coupling `τ·v = J/2` at both ends of the step
+    (so `W00 = W11 = J/2`, cross term `W01 = J`), `dt = 1` -/
+theorem hiMat_witness (t : ℝ) :
+    hiMat (fun _ => 0) zeroTab zeroTab (Jtab (1/2)) (Jtab (1/2)) (Jtab 1) 1 t
+      = !![0, -(Complex.I / 2); Complex.I / 2, 0] := by
+  ext i j
+  fin_cases i <;> fin_cases j <;>
+    simp [hiMat, zeroTab, Jtab, Tab.get_ofFn, Complex.ext_iff] <;> ring
+
+/-- Bloch-type coordinates of a 2×2 matrix -/
+def fz (X : Matrix (Fin 2) (Fin 2) ℂ) : ℂ := (X 0 0 - X 1 1) + Complex.I * (X 0 1 + X 1 0)
+def fzb (X : Matrix (Fin 2) (Fin 2) ℂ) : ℂ := (X 0 0 - X 1 1) - Complex.I * (X 0 1 + X 1 0)
+def fd (X : Matrix (Fin 2) (Fin 2) ℂ) : ℂ := X 0 1 - X 1 0
+
+/-- `tr X² = ((tr X)² + fz·fzb − fd²)/2` for every 2×2 matrix -/
+theorem trace_sq_two (X : Matrix (Fin 2) (Fin 2) ℂ) :
+    (X * X).trace = (X.trace ^ 2 + fz X * fzb X - fd X ^ 2) / 2 := by
+  simp only [Matrix.trace, Matrix.diag, Matrix.mul_apply, Fin.sum_univ_two, fz, fzb, fd]
+  have hI : Complex.I ^ 2 = -1 := Complex.I_sq
+  have hI3 : Complex.I ^ 3 = -Complex.I := by rw [pow_succ, hI]; ring
+  have hI4 : Complex.I ^ 4 = 1 := by rw [show (4 : ℕ) = 2 * 2 from rfl, pow_mul, hI]; ring
+  ring_nf
+  simp only [hI, hI3, hI4]
+  ring
+
+/-- the right-hand side of the witness, on matrices -/
+noncomputable def Gw (X : Matrix (Fin 2) (Fin 2) ℂ) : Matrix (Fin 2) (Fin 2) ℂ :=
+  (-Complex.I) • (!![0, -(Complex.I / 2); Complex.I / 2, 0] * X - X * !![0, -(Complex.I / 2); Complex.I / 2, 0])
+
+theorem fz_Gw (X : Matrix (Fin 2) (Fin 2) ℂ) : fz (Gw X) = Complex.I * fz X := by
+  simp only [fz, Gw, Matrix.smul_apply, Matrix.sub_apply, Matrix.mul_apply, Fin.sum_univ_two, smul_eq_mul,
+    Matrix.of_apply, Matrix.cons_val', Matrix.cons_val_zero, Matrix.cons_val_one, Matrix.cons_val_fin_one]
+  have hI : Complex.I ^ 2 = -1 := Complex.I_sq
+  have hI3 : Complex.I ^ 3 = -Complex.I := by rw [pow_succ, hI]; ring
+  have hI4 : Complex.I ^ 4 = 1 := by rw [show (4 : ℕ) = 2 * 2 from rfl, pow_mul, hI]; ring
+  ring_nf
+  simp only [hI, hI3, hI4]
+  ring
+
+theorem fzb_Gw (X : Matrix (Fin 2) (Fin 2) ℂ) : fzb (Gw X) = (-Complex.I) * fzb X := by
+  simp only [fzb, Gw, Matrix.smul_apply, Matrix.sub_apply, Matrix.mul_apply, Fin.sum_univ_two, smul_eq_mul,
+    Matrix.of_apply, Matrix.cons_val', Matrix.cons_val_zero, Matrix.cons_val_one, Matrix.cons_val_fin_one]
+  have hI : Complex.I ^ 2 = -1 := Complex.I_sq
+  have hI3 : Complex.I ^ 3 = -Complex.I := by rw [pow_succ, hI]; ring
+  have hI4 : Complex.I ^ 4 = 1 := by rw [show (4 : ℕ) = 2 * 2 from rfl, pow_mul, hI]; ring
+  ring_nf
+  simp only [hI, hI3, hI4]
+  ring
+
+theorem fd_Gw (X : Matrix (Fin 2) (Fin 2) ℂ) : fd (Gw X) = 0 * fd X := by
+  simp only [fd, Gw, Matrix.smul_apply, Matrix.sub_apply, Matrix.mul_apply, Fin.sum_univ_two, smul_eq_mul,
+    Matrix.of_apply, Matrix.cons_val', Matrix.cons_val_zero, Matrix.cons_val_one, Matrix.cons_val_fin_one]
+  ring
+
+/-- the witness run: ONE linear-rk4 step (`dt = 1`, one sub-step) from the pure state `|0⟩⟨0|` with a degenerate zero
+    Hamiltonian and the constant coupling above -/
+noncomputable def rhoW : Tab (Cx ℝ) 2 2 :=
+  rk4 (α := ℝ) madd msmul
+    (fun r t => rk4Ydot (fun _ => 0) zeroTab zeroTab (Jtab (1/2)) (Jtab (1/2)) (Jtab 1) 1 r t) 0 1 1
+    (Tab.ofFn (fun i j => if i.val = 0 ∧ j.val = 0 then (⟨1, 0⟩ : Cx ℝ) else ⟨0, 0⟩))
+
+private theorem transportW (f : Matrix (Fin 2) (Fin 2) ℂ → ℂ) (lam : ℂ)
+    (hadd : ∀ A B, f (A + B) = f A + f B) (hsmul : ∀ (c : ℝ) A, f ((c : ℂ) • A) = (c : ℂ) * f A)
+    (hG : ∀ X, f (Gw X) = lam * f X) :
+    f (toM rhoW) = (1 + lam + lam ^ 2 / 2 + lam ^ 3 / 6 + lam ^ 4 / 24)
+      * f (toM (Tab.ofFn (fun i j => if i.val = 0 ∧ j.val = 0 then (⟨1, 0⟩ : Cx ℝ) else ⟨0, 0⟩))) := by
+  have tr := rk4_transport (Y := ℂ) (fun ρ => f (toM ρ))
+    (fun a b => by simp only [toM_madd, hadd])
+    (fun c a => by simp only [toM_msmul, hsmul, Complex.real_smul])
+    (fun r t => rk4Ydot (fun _ => 0) zeroTab zeroTab (Jtab (1/2)) (Jtab (1/2)) (Jtab 1) 1 r t)
+    (fun z _ => lam * z)
+    (fun a t => by
+      simp only [rk4Ydot_eq, hiMat_witness]
+      exact hG (toM a)) 0 1 1
+    (Tab.ofFn (fun i j => if i.val = 0 ∧ j.val = 0 then (⟨1, 0⟩ : Cx ℝ) else ⟨0, 0⟩))
+  unfold rhoW
+  rw [tr, rk4V_scalar]
+  push_cast
+  ring
+
+/-- **T7 (counterexample to purity under `linear-rk4`).** One RK4 step from the pure state `|0⟩⟨0|` under a Hermitian
+    generator (degenerate energies, constant derivative coupling `τ·v = J/2`, `dt = 1`) gives `tr ρ² = 1145/1152 < 1`,
+    although the trace is still exactly one (`rk4_trace`) and ρ is still Hermitian (`rk4_hermitian`): the RK4 electronic
+    integrator is not unitary, so "a pure initial state stays pure" fails for it at any finite sub-step. -/
+theorem rk4_purity_witness : (toM rhoW * toM rhoW).trace = 1145 / 1152 ∧ (toM rhoW).trace = 1 := by
+  have hρ0 : ∀ i j, toM (Tab.ofFn (fun i j : Fin 2 => if i.val = 0 ∧ j.val = 0 then (⟨1, 0⟩ : Cx ℝ) else ⟨0, 0⟩)) i j
+      = if i.val = 0 ∧ j.val = 0 then 1 else 0 := by
+    intro i j
+    simp only [toM_apply, Tab.get_ofFn]
+    split <;> apply Complex.ext <;> simp
+  have htr : (toM rhoW).trace = 1 := by
+    unfold rhoW
+    rw [rk4_trace]
+    simp only [Matrix.trace, Matrix.diag, Fin.sum_univ_two, hρ0]
+    norm_num
+  have hI : Complex.I ^ 2 = -1 := Complex.I_sq
+  have hI3 : Complex.I ^ 3 = -Complex.I := by rw [pow_succ, hI]; ring
+  have hI4 : Complex.I ^ 4 = 1 := by rw [show (4 : ℕ) = 2 * 2 from rfl, pow_mul, hI]; ring
+  have h1 := transportW fz Complex.I (fun A B => by simp [fz]; ring) (fun c A => by simp [fz]; ring) fz_Gw
+  have h2 := transportW fzb (-Complex.I) (fun A B => by simp [fzb]; ring) (fun c A => by simp [fzb]; ring) fzb_Gw
+  have h3 := transportW fd 0 (fun A B => by simp [fd]; ring) (fun c A => by simp [fd]; ring) fd_Gw
+  refine ⟨?_, htr⟩
+  rw [trace_sq_two, htr, h1, h2, h3]
+  simp only [fz, fzb, fd, hρ0]
+  norm_num
+  ring_nf
+  simp only [hI, hI3, hI4]
+  ring
+
+/-- in particular the state after the step is not pure -/
+theorem rk4_not_pure : toM rhoW * toM rhoW ≠ toM rhoW := by
+  intro h
+  have w := rk4_purity_witness
+  rw [h, w.2] at w
+  norm_num at w
+
+end rk4witness
 
 /-- an A-FSSH collapse (two states) leaves the pure active state: it is idempotent, Hermitian, trace one -/
 theorem collapse_pure (k : Fin N) :
